@@ -43,4 +43,17 @@ impl Formatter {
         let printer = pretty_print::Printer::new(&arena, source, self.clone());
         printer.format(100, newline, &expr)
     }
+
+    /// Verification hook (`--cfg gluon_verif`): `pretty_expr` at another line width (`\n` newlines)
+    #[cfg(gluon_verif)]
+    pub fn verif_pretty_expr_width(
+        &self,
+        width: usize,
+        source: &dyn Source,
+        expr: &SpannedExpr<Symbol>,
+    ) -> String {
+        let arena = pretty::Arena::<()>::new();
+        let printer = pretty_print::Printer::new(&arena, source, self.clone());
+        printer.format(width, "\n", &expr)
+    }
 }
